@@ -258,7 +258,8 @@ def compact(sequence: ArrayT, key: object = None) -> list[object]:
             raise FilterArgumentError(
                 f"can't read property '{key}'", token=None
             ) from err
-    return [itm for itm in sequence if itm is not None]
+    # `_NULL` is what the map filter puts in place of a missing property.
+    return [itm for itm in sequence if itm is not None and itm is not _NULL]
 
 
 @sequence_filter
